@@ -262,6 +262,39 @@ func c15Ownership(e *c15env) {
 			}
 			return true
 		})
+		// a *Session parameter that every caller fills with the result of a getter (the lookup moved to the caller)
+		if h.Type != nil && h.Type.Params != nil && len(e.sites[e.obj(h)]) > 0 {
+			var getters []*flow.Func
+			for _, g := range e.fns {
+				if isGetter(g) {
+					getters = append(getters, g)
+				}
+			}
+			for _, fld := range h.Type.Params.List {
+				for _, nm := range fld.Names {
+					po := h.Info.Defs[nm]
+					if po == nil || !c15isNamed(po.Type(), e.sessT) {
+						continue
+					}
+					terms := e.trace(getters...).origins(h, nm)
+					all := len(terms) > 0
+					for _, t := range terms {
+						call, ok := t.expr.(*ast.CallExpr)
+						if !ok || t.idx != 0 {
+							all = false
+							break
+						}
+						o, _ := c15callee(t.fn, call)
+						if g := e.byObj[o]; g == nil || !isGetter(g) {
+							all = false
+						}
+					}
+					if all {
+						out = append(out, po)
+					}
+				}
+			}
+		}
 		return out
 	}
 	const why = "a session is registered under the client id while the session registered before may still be live (not known absent, not nil, not closed): its resend loop keeps retransmitting its unacknowledged messages to the connection that owns the id now, whose PUBACKs reach the new session"
